@@ -132,7 +132,34 @@ def rule_il_symmetry(ctx):
             ctx.violated("ILSYM", key, f.where(), "the switch over `%s` does not reject unknown interlace codes (default arm missing or not failing)" % v)
         else:
             ctx.holds("ILSYM", key, f.where(), "unknown codes take the failing default", nontrivial=False)
-    ctx.floor("ILSYM", 5, n, "(interlace codes x 2 switches)")
+    # conditions outside the two switches must treat the two interlace parameters alike
+    conds = []
+
+    def visc(nn, st):
+        if nn[0] in ("if", "while") and nn[1] is not None:
+            conds.append(nn[1])
+        return True
+    ast_walk(f.raw.get("ast"), visc)
+    (v1, _t1, _d1), (v2, _t2, _d2) = tabs
+    for ci, c in enumerate(conds):
+        atoms = {v1: set(), v2: set()}
+        for x in walk(c, True):
+            if x[0] == "bin" and x[1] in ("==", "!="):
+                l, r = strip(x[2]), strip(x[3])
+                if kind(l) == "var" and l[1] in atoms and is_int(r):
+                    atoms[l[1]].add((x[1], int_val(r)))
+                elif kind(r) == "var" and r[1] in atoms and is_int(l):
+                    atoms[r[1]].add((x[1], int_val(l)))
+        if not atoms[v1] and not atoms[v2]:
+            continue
+        n += 1
+        key = "ILSYM:cond#%d" % (ci + 1)
+        if atoms[v1] == atoms[v2]:
+            ctx.holds("ILSYM", key, f.where(), "`%s` tests `%s` and `%s` against the same interlace codes" % (render(c)[:60], v1, v2), nontrivial=True)
+        else:
+            ctx.violated("ILSYM", key, f.where(), "`%s` treats the input and the output interlace differently (%s: %s, %s: %s): the end-of-line adjustment is applied for one direction of a conversion only"
+                         % (render(c)[:70], v1, sorted(atoms[v1]), v2, sorted(atoms[v2])))
+    ctx.floor("ILSYM", 6, n, "(interlace codes x 2 switches, symmetric conditions)")
     return n
 
 
